@@ -3,6 +3,7 @@ package props
 import (
 	"go/ast"
 	"go/token"
+	"go/types"
 	"strings"
 
 	"golang.org/x/tools/go/ssa"
@@ -412,52 +413,6 @@ func c11(c *an.Ctx) {
 									stable = true
 								}
 							}
-							ifs, ok := n.(*ast.IfStmt)
-							if !ok {
-								return true
-							}
-							cond, ok := ifs.Cond.(*ast.BinaryExpr)
-							if !ok || cond.Op != token.EQL {
-								return true
-							}
-							asc := strings.Contains(exprString(cond.Y), "Ascending") || strings.Contains(exprString(cond.X), "Ascending")
-							checkRet := func(body *ast.BlockStmt, wantOp token.Token, which string) {
-								if body == nil || len(body.List) == 0 {
-									o.Fail(p.Pos(ifs.Pos()), "sorts[%s]: missing %s branch", key, which)
-									return
-								}
-								rs, ok := body.List[len(body.List)-1].(*ast.ReturnStmt)
-								if !ok || len(rs.Results) != 1 {
-									return
-								}
-								be, ok := rs.Results[0].(*ast.BinaryExpr)
-								if !ok {
-									o.Fail(p.Pos(rs.Pos()), "sorts[%s]: %s comparator is not a comparison", key, which)
-									return
-								}
-								if be.Op != wantOp {
-									o.Fail(p.Pos(rs.Pos()), "sorts[%s]: %s comparator uses %s, must be the strict %s (a non-strict less function breaks stability and the order between pages)", key, which, be.Op, wantOp)
-								}
-								for _, side := range []ast.Expr{be.X, be.Y} {
-									if !strings.Contains(exprString(side), "."+want+"()") {
-										o.Fail(p.Pos(rs.Pos()), "sorts[%s]: %s comparator reads %s, expected the .%s() accessor of the key's kind", key, which, exprString(side), want)
-									}
-								}
-								if exprString(be.X) == exprString(be.Y) {
-									o.Fail(p.Pos(rs.Pos()), "sorts[%s]: comparator compares a value with itself", key)
-								}
-							}
-							var elseBody *ast.BlockStmt
-							if eb, ok := ifs.Else.(*ast.BlockStmt); ok {
-								elseBody = eb
-							}
-							if asc {
-								checkRet(ifs.Body, token.LSS, "ascending")
-								checkRet(elseBody, token.GTR, "descending")
-							} else {
-								checkRet(ifs.Body, token.GTR, "descending")
-								checkRet(elseBody, token.LSS, "ascending")
-							}
 							return true
 						})
 						if !stable {
@@ -470,6 +425,9 @@ func c11(c *an.Ctx) {
 		if nEntries < 4 {
 			o.Fail("graphql/schemabuilder/pagination.go", "sorts table has %d entries, expected 4", nEntries)
 		}
+		// the comparators (SSA): for order = ascending / descending the less function
+		// returns accessor(slice[i]) < accessor(slice[j]) / the strict opposite
+		checkSortComparators(c, o, accessor)
 		// getSort vs supportedSort
 		gs, _ := p.FuncDecl(sbp, "getSort")
 		ss, _ := p.FuncDecl(sbp, "supportedSort")
@@ -744,4 +702,231 @@ func pairedLoopVars(outer, f *ssa.Function, nodeArg, iArg ssa.Value, nodes strin
 	}
 	ia, ok := ld.X.(*ssa.IndexAddr)
 	return ok && an.PathOf(ia.X) == nodes && ia.Index == iv
+}
+
+// checkSortComparators evaluates every less function passed to sort.SliceStable
+// by an entry of the sorts table for both sort orders.
+func checkSortComparators(c *an.Ctx, o *an.O, accessor map[string]string) {
+	p := c.P
+	sp := p.Pkg(sbp)
+	initFn := sp.Func("init")
+	an.Need(initFn != nil, "schemabuilder package initialiser")
+	kindName := func(v ssa.Value) string {
+		cst, ok := v.(*ssa.Const)
+		if !ok || cst.Value == nil {
+			return ""
+		}
+		rp := p.ExtPkg("reflect")
+		if rp == nil {
+			return ""
+		}
+		for name := range accessor {
+			if obj, ok := rp.Types.Scope().Lookup(name).(*types.Const); ok && obj.Val().ExactString() == cst.Value.ExactString() {
+				return name
+			}
+		}
+		return ""
+	}
+	ascVal, ok1 := an.PkgConstInt(sp.Pkg, "SortOrder_Ascending")
+	descVal, ok2 := an.PkgConstInt(sp.Pkg, "SortOrder_Descending")
+	an.Need(ok1 && ok2 && ascVal != descVal, "SortOrder constants")
+	n := 0
+	an.Instrs(initFn, func(i ssa.Instruction) {
+		mu, ok := i.(*ssa.MapUpdate)
+		if !ok {
+			return
+		}
+		g, ok := an.StripConv(mu.Map).(*ssa.UnOp)
+		if ok {
+			if gl, isG := g.X.(*ssa.Global); !isG || gl.Name() != "sorts" {
+				ok = false
+			}
+		}
+		if !ok {
+			if ms, isMake := mu.Map.(*ssa.MakeMap); !isMake || !strings.Contains(ms.Type().String(), "sortReference") {
+				return
+			}
+		}
+		key := kindName(mu.Key)
+		want := accessor[key]
+		if want == "" {
+			return
+		}
+		var entry *ssa.Function
+		switch x := an.StripConv(mu.Value).(type) {
+		case *ssa.Function:
+			entry = x
+		case *ssa.MakeClosure:
+			entry, _ = x.Fn.(*ssa.Function)
+		}
+		if entry == nil {
+			o.FailAt(i, "sorts[%s] is not a function literal", key)
+			return
+		}
+		var less *ssa.Function
+		for _, call := range an.CallsAny(entry, an.CalleeSpec{Pkg: "sort", Name: "SliceStable"}) {
+			if mc, ok := an.CallOf(call).Args[1].(*ssa.MakeClosure); ok {
+				less, _ = mc.Fn.(*ssa.Function)
+			}
+			if an.CallOf(call).Args[0] != ssa.Value(an.StripConv(an.CallOf(call).Args[0])) {
+				continue
+			}
+		}
+		if less == nil || len(less.Params) != 2 {
+			o.FailAt(i, "sorts[%s]: cannot find the less function given to sort.SliceStable", key)
+			return
+		}
+		n++
+		o.Site(i)
+		orderOf := func(v ssa.Value) bool { // v is (a load of) the captured order parameter
+			if ld, ok := v.(*ssa.UnOp); ok && ld.Op == token.MUL {
+				v = ld.X
+			}
+			fv, ok := v.(*ssa.FreeVar)
+			if !ok {
+				_, isParam := v.(*ssa.Parameter)
+				return isParam && v.Type().String() == sp.Pkg.Path()+".SortOrder"
+			}
+			return strings.HasSuffix(strings.TrimPrefix(fv.Type().String(), "*"), ".SortOrder")
+		}
+		// which element (0 = less.Params[0], 1 = less.Params[1]) a compared value is derived from
+		var side func(v ssa.Value, d int) (int, bool)
+		side = func(v ssa.Value, d int) (int, bool) {
+			if d > 8 {
+				return 0, false
+			}
+			switch x := v.(type) {
+			case *ssa.Call:
+				f := an.CalleeFunc(x.Common())
+				if f == nil || len(x.Call.Args) == 0 {
+					return 0, false
+				}
+				if f.Pkg() != nil && f.Pkg().Path() == "strings" && f.Name() == "ToLower" {
+					return side(x.Call.Args[0], d+1)
+				}
+				if f.Pkg() != nil && f.Pkg().Path() == "reflect" {
+					if f.Name() != want {
+						return -1, true // wrong accessor
+					}
+					return side(x.Call.Args[0], d+1)
+				}
+			case *ssa.UnOp:
+				if x.Op == token.MUL {
+					return side(x.X, d+1)
+				}
+			case *ssa.FieldAddr:
+				if an.FieldName(x.X.Type(), x.Field) == "value" {
+					return side(x.X, d+1)
+				}
+			case *ssa.Field:
+				return side(x.X, d+1)
+			case *ssa.Alloc:
+				// a := slice[i].value is a local copy: follow its single store
+				var st *ssa.Store
+				for _, r := range *x.Referrers() {
+					if s2, ok := r.(*ssa.Store); ok && s2.Addr == ssa.Value(x) {
+						if st != nil {
+							return 0, false
+						}
+						st = s2
+					}
+				}
+				if st != nil {
+					return side(st.Val, d+1)
+				}
+			case *ssa.IndexAddr:
+				for k := 0; k < 2; k++ {
+					if x.Index == ssa.Value(less.Params[k]) {
+						return k, true
+					}
+				}
+			case *ssa.ChangeType:
+				return side(x.X, d+1)
+			case *ssa.Convert:
+				return side(x.X, d+1)
+			}
+			return 0, false
+		}
+		for _, asc := range []bool{true, false} {
+			which := "descending"
+			if asc {
+				which = "ascending"
+			}
+			sim := &an.BoolSim{Fn: less, Atom: func(v ssa.Value) (bool, bool) {
+				bo, ok := v.(*ssa.BinOp)
+				if !ok || (bo.Op != token.EQL && bo.Op != token.NEQ) {
+					return false, false
+				}
+				for _, pr := range [][2]ssa.Value{{bo.X, bo.Y}, {bo.Y, bo.X}} {
+					cv, ok := an.ConstInt(pr[1])
+					if !ok || !orderOf(pr[0]) {
+						continue
+					}
+					cur := descVal
+					if asc {
+						cur = ascVal
+					}
+					return (cur == cv) == (bo.Op == token.EQL), true
+				}
+				return false, false
+			}}
+			reached := sim.Run()
+			nret := 0
+			for _, e := range an.Exits(less, false) {
+				ret, ok := e.(*ssa.Return)
+				if !ok || !reached[e.Block()] || len(ret.Results) != 1 {
+					continue
+				}
+				for _, rv := range sim.ValuesAt(ret.Results[0], e.Block()) {
+					nret++
+					bo, ok := rv.(*ssa.BinOp)
+					if !ok {
+						o.FailAt(e, "sorts[%s]: %s comparator is not a comparison", key, which)
+						continue
+					}
+					sx, okx := side(bo.X, 0)
+					sy, oky := side(bo.Y, 0)
+					if !okx || !oky {
+						o.FailAt(e, "sorts[%s]: cannot relate the %s comparator's operands to slice[i] / slice[j]", key, which)
+						continue
+					}
+					if sx == -1 || sy == -1 {
+						o.FailAt(e, "sorts[%s]: %s comparator does not read the values with the .%s() accessor of the key's kind", key, which, want)
+						continue
+					}
+					if sx == sy {
+						o.FailAt(e, "sorts[%s]: comparator compares a value with itself", key)
+						continue
+					}
+					// normalise to "elem i OP elem j"
+					op := bo.Op
+					if sx == 1 {
+						switch op {
+						case token.LSS:
+							op = token.GTR
+						case token.GTR:
+							op = token.LSS
+						case token.LEQ:
+							op = token.GEQ
+						case token.GEQ:
+							op = token.LEQ
+						}
+					}
+					wantOp := token.GTR
+					if asc {
+						wantOp = token.LSS
+					}
+					if op != wantOp {
+						o.FailAt(e, "sorts[%s]: %s comparator uses %s, must be the strict %s (a non-strict or reversed less function breaks stability and the order between pages)", key, which, op, wantOp)
+					}
+				}
+			}
+			if nret == 0 {
+				o.FailAt(i, "sorts[%s]: missing %s branch", key, which)
+			}
+		}
+	})
+	if n < 4 {
+		o.Fail("graphql/schemabuilder/pagination.go", "found the comparators of %d sorts entries, expected 4", n)
+	}
 }
